@@ -165,6 +165,10 @@ Proof.
         exfalso. apply Hf. apply same_flow_sym. apply (new_qsession_matches p (opt_server_ports o) q). exact Em.
 Qed.
 
+Lemma quic_other_flow p ss ss' : respects ss p -> same_flowb q p = false ->
+  handle_quic_packet C o ftable kl ss p = Ok ss' -> qproj ss' = qproj ss.
+Proof. intros Hr Hf H. pose proof (handle_quic_proj p ss ss' Hr H) as Hp. rewrite Hf in Hp. exact Hp. Qed.
+
 (* a capture of datagrams *)
 Fixpoint qrun (ss : list qsession) (ps : list packet) : result (list qsession) :=
   match ps with [] => Ok ss | p :: r => do ss' <- handle_quic_packet C o ftable kl ss p; qrun ss' r end.
